@@ -503,6 +503,40 @@ def alias_probe(rng, uid, stream):
            f'def make_top():\n  return Top_{u}()\n' + pre)
     return {'uid': f'p{uid}', 'kind': 'probe', 'stream': stream, 'expect': 'clean' if stream == 'explicit-name-parametrized' else 'alias',
             'module': f'c13_p{uid}', 'source': src, 'extra_modules': [], 'walk': False, 'features': ['probe:' + stream, 'explicit:' + variant]}
+  elif stream in ('placeholder-parametrized', 'placeholder-parametrized-params-option'):
+    # one Verilog placeholder class with construct() arguments, 2-3 instances with equal / different arguments, directly
+    # under the top or inside a sub-tree, with and without the `params` option
+    vname = f'VReg_{u}'
+    vsrc = (f'module {vname}\n#(\n  parameter nbits = 8\n)(\n  input  logic             clk,\n  input  logic             reset,\n'
+            f'  input  logic [nbits-1:0] d,\n  output logic [nbits-1:0] q\n);\n  always_ff @(posedge clk)\n    q <= d;\nendmodule\n')
+    n = rng.choice([2, 2, 3])
+    ws = [rng.choice([8, 16, 4]) for _ in range(n)]
+    with_params = stream.endswith('params-option')
+    # inferred parameters: always at least two different arguments (plus, with 3 instances, often an equal pair)
+    if (not with_params or rng.random() < 0.7) and len(set(ws)) == 1: ws[-1] = rng.choice([w for w in (4, 8, 16) if w != ws[0]])
+    nested = rng.random() < 0.4
+    names = rng.sample(['r8', 'ra', 'rb', 'q0', 'q1', 'q10', 'Rz'], n)
+    body = [f'class Top_{u}( Component ):', '  def construct( s ):']
+    for nm, w in zip(names, ws):
+      e = f'Wrap_{u}( {w} )' if (nested and nm != names[0]) else f'{vname}( {w} )'
+      body.append(f'    s.i_{nm} = InPort( {w} ); s.o_{nm} = OutPort( {w} ); s.{nm} = {e}; s.{nm}.d //= s.i_{nm}; s.o_{nm} //= s.{nm}.q')
+    src = (f'import os\nfrom pymtl3 import *\n'
+           f'from pymtl3.passes.backends.verilog import VerilogPlaceholder, VerilogPlaceholderPass, VerilogTranslationPass\n'
+           f'HERE = os.path.dirname( os.path.abspath( __file__ ) )\n'
+           f'class {vname}( VerilogPlaceholder, Component ):\n  def construct( s, nbits ):\n'
+           f'    s.d = InPort( mk_bits( nbits ) ); s.q = OutPort( mk_bits( nbits ) )\n'
+           f'    s.set_metadata( VerilogPlaceholderPass.src_file, os.path.join( HERE, "{vname}.v" ) )\n'
+           f'    s.set_metadata( VerilogPlaceholderPass.top_module, "{vname}" )\n'
+           + (f'    s.set_metadata( VerilogPlaceholderPass.params, {{ "nbits": nbits }} )\n' if with_params else '') +
+           f'class Wrap_{u}( Component ):\n  def construct( s, w ):\n    s.d = InPort( w ); s.q = OutPort( w )\n'
+           f'    s.reg_ = {vname}( w ); s.reg_.d //= s.d; s.q //= s.reg_.q\n'
+           + '\n'.join(body) + '\n'
+           f'def make_top():\n  return Top_{u}()\n'
+           f'def pre_translate( top, backend ):\n  top.apply( VerilogPlaceholderPass() )\n')
+    return {'uid': f'p{uid}', 'kind': 'probe', 'stream': stream, 'expect': 'clean', 'module': f'c13_p{uid}', 'source': src,
+            'extra_modules': [], 'extra_files': [(f'{vname}.v', vsrc)], 'model': False,
+            'features': ['probe:' + stream, 'placeholder:' + ('params' if with_params else 'inferred') + (':nested' if nested else '')
+                         + (':same' if len(set(ws)) == 1 else ':different')]}
   elif stream == 'sibling-internal-structs':
     # sibling sub-components that each use a bitstruct type of their own on an INTERNAL wire only: the order of the
     # typedefs at the head of the file is the order in which the translator reaches the siblings
@@ -540,7 +574,7 @@ def alias_probe(rng, uid, stream):
            f'    s.pt.in_ //= s.in_; s.inc.in_ //= s.pt.out; s.out //= s.inc.out\n'
            f'def make_top():\n  return Top_{u}()\n'
            f'def pre_translate( top, backend ):\n'
-           + (f'  top.pt.set_metadata( VerilogTranslationPass.explicit_module_name, "MyPassThru_{u}" )\n' if explicit else '') +
+           + (f'  if hasattr( top, "pt" ): top.pt.set_metadata( VerilogTranslationPass.explicit_module_name, "MyPassThru_{u}" )\n' if explicit else '') +
            f'  top.apply( VerilogPlaceholderPass() )\n')
     return {'uid': f'p{uid}', 'kind': 'probe', 'stream': stream, 'expect': 'clean', 'module': f'c13_p{uid}', 'source': src,
             'extra_modules': [], 'extra_files': [(f'{vname}.v', vsrc)], 'backends': ['sv'], 'model': False,
@@ -558,6 +592,7 @@ ALIAS_STREAMS = [
   'set-param-different-values', 'bitstruct-subclass', 'nested-collision-under-same-named-parents', 'newline-param',
   'hash-equal-params', 'placeholder-child-explicit-name', 'sibling-internal-structs',
   'explicit-name-parametrized', 'explicit-name-different-parameters', 'explicit-name-one-of-two-equal-instances',
+  'placeholder-parametrized', 'placeholder-parametrized-params-option',
 ]
 
 # ---------------------------------------------------------------------- several enabled sub-trees, ONE pass application
